@@ -1164,15 +1164,34 @@ func (x *FnCtx) deferred(fr *Frame, st *State, in *ssa.Defer) {
 	}
 }
 
+func deferDominatesSomeReturn(d *ssa.Defer) bool {
+	for _, b := range d.Parent().Blocks {
+		for _, in := range b.Instrs {
+			if _, ok := in.(*ssa.RunDefers); ok && (d.Block() == b || d.Block().Dominates(b)) {
+				return true
+			}
+		}
+	}
+	return false
+}
+
 var deferArgs = map[*ssa.Defer][]Value{}
 var deferFn = map[*ssa.Defer]Value{}
 
-func (x *FnCtx) runDefers(fr *Frame, st *State) {
+func (x *FnCtx) runDefers(fr *Frame, st *State, at *ssa.BasicBlock) {
 	// Defers registered on every path to here, in reverse order. A defer inside a
 	// branch is modelled as registered iff its block dominates the current point;
 	// others are outside the subset.
 	for i := len(fr.defers) - 1; i >= 0; i-- {
 		d := fr.defers[i]
+		if at != nil && d.Block() != at && !d.Block().Dominates(at) {
+			// not registered on the paths to this point (a defer inside a branch that does not
+			// dominate the return is outside the subset: it is neither run nor reported)
+			if !deferDominatesSomeReturn(d) {
+				x.abstracted("defer in a block that dominates no return: ignored")
+			}
+			continue
+		}
 		args := deferArgs[d]
 		site := fr.prefix + fr.siteOrd[d]
 		c := &d.Call
